@@ -176,14 +176,28 @@ inductive WS
   | notRequired | required | written
 deriving DecidableEq, Repr, Inhabited
 
-/-- One write of the printer: a token or a piece of layout. -/
+/-- number of trailing backslashes -/
+def trailingBackslashes (v : Bytes) : Nat := (v.reverse.takeWhile (· == 92)).length
+
+/-- the bytes `p.wordPart` writes for a part -/
+def WordPart.bytes : WordPart → Bytes
+  | .lit _ _ v => if trailingBackslashes v % 2 = 1 then v ++ [92] else v
+  | .sgl _ _ v => 39 :: (v ++ [39])
+
+/-- the bytes `p.wordParts` writes for a word (nothing is written between the parts in F0) -/
+def wordBytes (parts : List WordPart) : Bytes := parts.flatMap WordPart.bytes
+
+/-- One write of the printer: a word (all its parts, written back to back), an operator or
+    reserved word, or a piece of layout. -/
 inductive Piece
-  | tok (b : Bytes)
+  | word (parts : List WordPart)
+  | op (b : Bytes)
   | gap (b : Bytes)
 deriving DecidableEq, Repr, Inhabited
 
 def Piece.bytes : Piece → Bytes
-  | .tok b => b
+  | .word parts => wordBytes parts
+  | .op b => b
   | .gap b => b
 
 def render (ps : List Piece) : Bytes := ps.flatMap Piece.bytes
@@ -209,7 +223,7 @@ deriving Repr, Inhabited
 /-- `Printer.reset` (+ `wroteSemi`, which Go leaves as is; a fresh printer has `false`). -/
 def P.init (o : Opts) : P := { o := o, firstLine := !o.minify }
 
-def P.tok (p : P) (b : Bytes) : P := { p with out := .tok b :: p.out }
+def P.tok (p : P) (b : Bytes) : P := { p with out := .op b :: p.out }
 def P.gapw (p : P) (b : Bytes) : P := { p with out := .gap b :: p.out }
 def P.panic (p : P) : P := { p with panicked := true }
 
@@ -296,21 +310,17 @@ def P.semiRsrv (p : P) (s : Bytes) (posLine : Nat) : P :=
 
 /-! ## Words -/
 
-/-- number of trailing backslashes -/
-def trailingBackslashes (v : Bytes) : Nat := (v.reverse.takeWhile (· == 92)).length
-
-/-- `p.wordPart(wp, next)` -/
+/-- the line bookkeeping of `p.wordPart(wp, next)` followed by `p.advanceLine(wp.End().Line())`
+    (the bytes are written by `P.wordParts` in one piece) -/
 def P.wordPart (p : P) (wp : WordPart) : P :=
   match wp with
-  | .lit _ _ v =>
-    let p := p.tok v
-    if trailingBackslashes v % 2 = 1 then p.tok [92] else p
-  | .sgl _ r v => ((p.tok [39]).tok v |>.tok [39]).advanceLine r.line
+  | .lit _ e _ => p.advanceLine e.line
+  | .sgl _ r _ => (p.advanceLine r.line).advanceLine wp.stop.line
 
 /-- the loop of `p.wordParts(wps, false)` -/
 def P.wordPartsLoop (p : P) : List WordPart → P
   | [] => p
-  | wp :: rest => ((p.wordPart wp).advanceLine wp.stop.line).wordPartsLoop rest
+  | wp :: rest => (p.wordPart wp).wordPartsLoop rest
 
 /-- `p.wordParts(wps, quoted=false)`; Go panics on `wps[0]` when empty. -/
 def P.wordParts (p : P) (wps : List WordPart) : P :=
@@ -318,7 +328,7 @@ def P.wordParts (p : P) (wps : List WordPart) : P :=
   | [] => p.panic
   | wp :: _ =>
     let p := if !p.o.singleLine && wp.pos.line > p.line then p.bslashNewl else p
-    p.wordPartsLoop wps
+    ({ p with out := .word wps :: p.out }).wordPartsLoop wps
 
 /-- `p.word(w)` -/
 def P.word (p : P) (w : Word) : P := { (p.wordParts w.parts) with wantSpace := .required }
@@ -1002,5 +1012,56 @@ def parseToks (toks : List TokPos) : Except ParseErr File := parseToksF (parseFu
 
 /-- `Parser.Parse` -/
 def parse (_l : Lang) (src : Bytes) : Except ParseErr File := parseToks (lexAll src)
+
+
+/-! ## `norm`: the tree without positions
+
+  Erases every position (including whether a statement had a `;`), and merges adjacent literals
+  of a word (the trace an escaped newline leaves).  The other documented rewrites concern
+  constructs outside F0. -/
+
+inductive NPart
+  | lit (v : Bytes)
+  | sgl (v : Bytes)
+deriving DecidableEq, Repr, Inhabited
+
+/-- adjacent literals merged -/
+def normParts : List WordPart → List NPart
+  | [] => []
+  | .sgl _ _ v :: rest => .sgl v :: normParts rest
+  | .lit _ _ v :: rest =>
+    match normParts rest with
+    | .lit v' :: r => .lit (v ++ v') :: r
+    | r => .lit v :: r
+
+def Word.norm (w : Word) : List NPart := normParts w.parts
+
+mutual
+inductive NStmt
+  | mk (neg bg : Bool) (cmd : NCmd)
+inductive NCmd
+  | call (args : List (List NPart))
+  | subshell (ss : NStmts)
+  | block (ss : NStmts)
+  | binary (op : BinOp) (x y : NStmt)
+inductive NStmts
+  | nil
+  | cons (s : NStmt) (rest : NStmts)
+end
+
+mutual
+def Stmt.norm : Stmt → NStmt
+  | .mk _ _ neg bg cmd => .mk neg bg cmd.norm
+def Cmd.norm : Cmd → NCmd
+  | .call args => .call (args.map Word.norm)
+  | .subshell _ _ ss => .subshell ss.norm
+  | .block _ _ ss => .block ss.norm
+  | .binary _ op x y => .binary op x.norm y.norm
+def Stmts.norm : Stmts → NStmts
+  | .nil => .nil
+  | .cons s r => .cons s.norm r.norm
+end
+
+def File.norm (f : File) : NStmts := f.stmts.norm
 
 end ShVerif.L4
